@@ -10,14 +10,15 @@ L = "λ"
 
 def combos_of(lb, block):
     """(A.external, B.external[, addr differs]) combinations under which `block` of link is reached"""
-    pcs = nf.path_conditions(lb, block, lambda x: x.endswith(".external") or (x.startswith("Ne(") and ".addr" in x))
+    pcs = nf.path_conditions(lb, block, lambda x: x.endswith(".external") or (x.startswith(("Ne(", "Eq(")) and ".addr" in x))
     if pcs is None:
         return None
     out = set()
     for pc in pcs:
         a = set(lab for d, lab in pc if d.endswith(".external") and "Occupied.0).external" in d)
         b = set(lab for d, lab in pc if d.endswith(".external") and "Occupied.0).external" not in d)
-        ne = set(lab for d, lab in pc if d.startswith("Ne("))
+        # path conditions are in positive form (nf.canon_bool_atom): `a.addr != b.addr` is the 0 edge of Eq(a.addr, b.addr)
+        ne = set({"0": "1", "1": "0"}.get(lab, lab) for d, lab in pc if d.startswith("Eq("))
         if len(a) > 1 or len(b) > 1 or len(ne) > 1:
             continue                       # infeasible: one flag with two values on the same path
         out.add((next(iter(a), "-"), next(iter(b), "-"), next(iter(ne), "-")))
@@ -123,7 +124,8 @@ def run(ck, ctx):
     ne = set()
     for bi, t in lb.terms("switch"):
         s = nf.pp_x(nf.XB(lb).expr_of_operand(t["discr"], 12, (bi, "term")))
-        if s.startswith("Ne(") and ".addr" in s:
+        if s.startswith(("Ne(", "Eq(")) and ".addr" in s:
+            s = "Ne(" + s[3:]
             ne.add(re.sub(r"\(.*?Occupied\.0\)", "A", re.sub(r"with_src_start\(.*\)\)\)|next\(into_iter\([^)]*\)\) as Some\.0\.1", "B", s)))
     ck.ob("C20.2", "conflict-compares-addresses", len(ne) == 1 and next(iter(ne)).count(".addr") == 2, "the conflict test compares A's and B's address: %s" % sorted(ne), where)
     # nothing else mutates the label map: only the vacant insert and the occupied (one-external) insert
